@@ -58,4 +58,19 @@ PROPS = {
         "level_text": "Machine-checked Lean 4 theorems about the model of the repaired Ord: for ALL pairs of 16-bit values cmp (from a) (from b) = compare (keyOf a) (keyOf b) with keyOf injective, hence equal only when equal, antisymmetric, transitive over all triples; valid ranks with lower value greater, invalid below valid; operators agree; the derived order of both enumerations is discriminant order on every pair (regenerated comparison matrices) and both discriminants never decrease along v = 1..7462. The pinned (unrepaired) cmp is refuted at (0, 7463).",
         "level_note": "Trusts: Lean kernel; rustc; extractor (validity ranges from the complete determine_name graph; Ord/PartialOrd/Eq of the enums on every pair); the five-branch cmp is a hand model compared with the crate on boundary and seeded pairs (all 2^32 pairs against the key in the thorough sweep).",
     },
+    "C02": {
+        "technique": "Lean 4 proof: loop invariant of the best-of fold over an arbitrary candidate list, candidates = all 5-element sublists (combos lemmas + decide on the regenerated slot tables), order independence via permutation lemmas; rests on the C01 class theorems",
+        "level_text": "Machine-checked Lean 4 theorem for EVERY list of six or seven distinct real cards (any slot order): plain and validated ranking return the value of a five-card sub-hand, no five-card sub-hand has a smaller value, that sub-hand has the greatest strength under the poker specification (= Spec.bestStrength, the rule-based reading), and the value is independent of slot order. The slot tables are regenerated from the crate and proved equal to combos 5 (range 6/7).",
+        "level_note": "Trusts: as C01, plus the correspondence for five_from_permutation / the loop / trait defaults (value AND reported hand compared on hands with the best five in each of the 6 + 21 rows, 60k seeded six- and seven-card hands in seeded orders; all 20,358,520 six-card hands in thorough).",
+    },
+    "C03": {
+        "technique": "Lean 4 proof: the C02 loop invariant extended to the remembered hand; insertion-sort model of sort+reverse proved a sorted permutation; permutation invariance of the five-card evaluator for any five words",
+        "level_text": "Machine-checked Lean 4 theorems: for a five-card input the reported hand is the input; for EVERY six or seven distinct real cards (any order) the reported hand is a rearrangement of the words of a five-card sub-hand of the input (so: five distinct words, all from the input), is non-increasing, and ranking it alone returns exactly the reported value.",
+        "level_note": "Trusts: as C02. core's sort_unstable+reverse is modelled as the (unique) non-increasing rearrangement.",
+    },
+    "C09": {
+        "technique": "Lean 4 proof from the C02 characterisation: sub-hands of a sub-hand are sub-hands (mem_combos, Sublist.trans) and a sublist-interpolation lemma",
+        "level_text": "Machine-checked Lean 4 theorems for EVERY seven distinct real cards, every six of them and every five of those: value7 <= value6 <= value5; value7 equals the least of its seven six-card values and value6 the least of its six five-card values.",
+        "level_note": "Trusts: as C02. The implementation sweep needs no oracle (it compares the crate's own values).",
+    },
 }
